@@ -212,6 +212,9 @@ def run_property(prop, modname, tier, seed):
     if units:
         r = seed % len(units)
         units = units[r:] + units[:r]
+    if hasattr(mod, "priority"):
+        # long units first (better packing); the rotation above still varies the order within a priority class
+        units.sort(key=mod.priority, reverse=True)
     total = UnitResult()
     sets = collections.defaultdict(set)
     harness_errors = []
